@@ -17,8 +17,11 @@ HIST_RULE = ('histories: breadth-first search over canonical quiescent daemon st
 
 def scenarios(tier):
     out = [Scenario('wid', n0=1, pat='obedient', tier=tier), Scenario('wid', n0=2, pat='first-stubborn', tier=tier)]
+    # two overlapping requests (the kill command does not take the exclusive slot) on workers that outlive the stop signal
+    out.append(Scenario('wid', n0=1, pat='stubborn', tier=tier, req2=True))
     if tier != 'quick':
-        out += [Scenario('wid', n0=2, pat='slow', tier=tier), Scenario('wid', n0=3, pat='obedient', tier=tier)]
+        out += [Scenario('wid', n0=2, pat='slow', tier=tier), Scenario('wid', n0=3, pat='obedient', tier=tier),
+                Scenario('wid', n0=2, pat='slow', tier=tier, req2=True)]
     return out
 
 
@@ -30,6 +33,8 @@ def plan(tier, gen):
 
 
 def bound(tier, scn, gen=1):
+    if scn.p.get('req2'):
+        return 2 if gen == 1 else 1
     return plan(tier, gen)[2]
 
 
@@ -57,6 +62,8 @@ def run(scn, ch):
                                 behaviours=pattern(scn.pat))])
 
     def budgets(g):
+        if scn.p.get('req2'):
+            return {'req': 2 if g == 1 else 1, 'die': 0}
         r, d, _ = plan(tier, g)
         return {'req': r, 'die': d}
 
@@ -76,6 +83,14 @@ def run(scn, ch):
         res.check('C13.wid_unique', len(set(wids)) == len(wids),
                   lambda: 'two live workers share a wid: %s (after %s)' % (sorted(wids), ev_lab), where='watcher._nextwid',
                   nontrivial=len(wids) > 1)
+        # ... and at every instant of the history, not only now: no two workers of the watcher whose lifetimes overlap
+        # were executed with the same wid
+        procs = [p for p in world.kernel.spawn_log if (p.watcher or '').lower() == 'a']
+        clash = [(p.pid - PID_BASE, q.pid - PID_BASE, p.argv[-1]) for i, p in enumerate(procs) for q in procs[i + 1:]
+                 if p.argv[-1] == q.argv[-1] and (p.death_time is None or p.death_time > q.spawn_time + 1e-9)]
+        res.check('C13.wid_unique', not clash,
+                  lambda: 'workers alive at the same time were executed with the same wid (pid, pid, wid): %s (after %s)'
+                  % (clash, ev_lab), where='watcher._nextwid/while-both-alive', nontrivial=len(procs) > 1)
         # the wid the daemon reports for a process is the one it was executed with
         st = world.ask('stats', name='a')
         if st and st.get('status') == 'ok':
